@@ -391,9 +391,9 @@ def write_bytecode_file(
             xdis.marsh.dumps(
                 code_obj,
                 python_version=version,
-                # the unmarshaller reads no co_posonlyargcount for these
-                # 3.8 pre-release magics, so none is written
-                has_posonlyargcount=magic_int not in (3400, 3401, 3410, 3411),
+                # the two 3.8 pre-release magics before PEP 570 (magic 3410)
+                # store no co_posonlyargcount, so none is written
+                has_posonlyargcount=magic_int not in (3400, 3401),
             )
         )
     fp.close()
